@@ -92,6 +92,14 @@ class Prop(common.PropertyCheck):
         for i in range(self.budget(10, 100)):
             yield {'cont': 'sample', 'D': [12, 3, 10, 5, 11][i % 5], 'N': rng.choice([1, 5]), 'form': ['none', 'list', 'scalar'][i % 3], 'seed': rng.randrange(1 << 30),
                    'at': 'none', 'ag': 'none', 'res': 'none', 'bad': None, 'dt': 'I', 'cytek': True, 'lin': i % 2 == 0}
+        # zero decades with a non-zero second entry ($PnE 0,1 is written by some instruments; (0, x) given by callers): a linear channel
+        for i in range(self.budget(16, 160)):
+            yield {'cont': ['sample', 'array'][i % 2], 'D': rng.randrange(2, 5), 'N': rng.choice([1, 5]), 'form': ['none', 'list', 'scalar'][i % 3], 'seed': rng.randrange(1 << 30),
+                   'at': ['given', 'none', 'partial'][i % 3] if i % 2 == 0 else 'given', 'ag': rng.choice(['none', 'partial', 'given']), 'res': 'none', 'bad': None, 'dt': 'I', 'zero_dec': True}
+        # the caller's lists of settings (with None entries) used for a second call with the channels in another order
+        for i in range(self.budget(16, 160)):
+            yield {'cont': 'sample', 'D': rng.randrange(3, 6), 'N': rng.choice([1, 5]), 'form': 'list', 'seed': rng.randrange(1 << 30),
+                   'at': 'partial', 'ag': 'partial', 'res': 'partial', 'bad': None, 'dt': 'I', 'reuse': True}
         for _ in range(self.budget(1, 5)):
             yield {'k': 'big', 'n': (1 << 20) * rng.choice([1, 2]) + rng.randrange(1, 5000), 'seed': rng.randrange(1 << 30)}
 
@@ -118,6 +126,8 @@ class Prop(common.PropertyCheck):
         if case['cont'] == 'sample':
             spec = samples.spec_rich(r, N=N, D=D, datatype=case.get('dt', 'I'), res=[256, 256, 1000][:D] if case.get('many') else None,
                                      log_channels=[0, 1, 2] if case.get('many') else None)
+            if case.get('zero_dec'):
+                spec['pne'] = {k: (v if not v.startswith('0,') else r.choice(['0,1', '0,0', '0,0.5', '0,10'])) for k, v in spec['pne'].items()}
             if case.get('cytek'):
                 if case.get('lin'):
                     spec['pne'] = {k: '0,0' for k in spec['pne']}
@@ -177,7 +187,8 @@ class Prop(common.PropertyCheck):
             at = settings('given', lambda: r.choice([(4, 1), (4, 0.01), (4, 10.), (4.5, 1)]))
             res = settings('given', lambda: 256)
         else:
-            at = settings(case['at'], lambda: r.choice([(0, 0), (0., 0.), (4, 1), (4.5, 0.5), (3, 1), (2, 1), (7.3, 1.), (8, 1)]))
+            pool = [(0, 0), (0., 0.), (4, 1), (4.5, 0.5), (3, 1), (2, 1), (7.3, 1.), (8, 1)] + ([(0, 1), (0, 0.5), (0., 10.), (0, 1)] if case.get('zero_dec') else [])
+            at = settings(case['at'], lambda: r.choice(pool))
         ag = settings(case['ag'], lambda: r.choice([0.5, 2., 8., 1.]))
         if not case.get('many'):
             res = settings(case['res'], lambda: r.choice([256, 1000, 1024, 4096, 262144]))
@@ -226,6 +237,12 @@ class Prop(common.PropertyCheck):
             return {'accessor_err': 'reading the settings of the sample raised %s: %s' % (type(e).__name__, str(e)[:80])}
         out['file_meta'] = self._file_meta
         st0 = fpm.state(d) if names else None
+        if case.get('reuse') and isinstance(ch, list) and len(ch) >= 2:
+            # the same list objects of settings, first used with the channels in reverse order (None = taken from the file, for that channel)
+            try:
+                FlowCal.transform.to_rfi(d, list(reversed(ch)), at, ag, res)
+            except Exception:
+                pass
         try:
             t = FlowCal.transform.to_rfi(d, ch, at, ag, res)
         except Exception as e:
